@@ -1157,3 +1157,27 @@ Section AnnualMachine.
     cbn [snd] in *. now rewrite IH.
   Qed.
 End AnnualMachine.
+
+Lemma cast_not_bool x a : v_type x <> TBool -> cast x a = a.
+Proof. unfold cast. destruct (v_type x); congruence. Qed.
+
+(** F20, summary: the answer is the default; nothing is stored *)
+Theorem am_f20_summary : forall y0 ny s v x s' k m pp c fuel,
+  nth_error (s_vars s) v = Some x -> apply_var_mod s (Annualize v) = Ok s' -> sv_unit x = Month ->
+  (1 <= y0)%Z -> k < ny -> (2 <= m <= 12)%Z -> in_force y0 x k m -> s_loops s = 1 ->
+  lookup (v, month_of (y0 + Z.of_nat k) m) c = None -> lookup (v, jan (y0 + Z.of_nat k)) c = None ->
+  let x' := to_var y0 ny v (annualized x) in
+  let r := calc (S (S fuel)) (to_sys y0 ny s') pp {| cache := c; stack := []; invalid := [] |} v
+             (month_of (y0 + Z.of_nat k) m) in
+  snd r = Ok (cast x' (default_array pp x'))
+  /\ (sv_type x <> TBool -> snd r = Ok (repeat (sv_default x) (count_of pp (sv_ent x))))
+  /\ lookup (v, month_of (y0 + Z.of_nat k) m) (cache (fst r)) = None
+  /\ lookup (v, jan (y0 + Z.of_nat k)) (cache (fst r)) = None
+  /\ stack (fst r) = [] /\ invalid (fst r) = [].
+Proof.
+  intros y0 ny s v x s' k m pp c fuel Hx Hann Hu Hy0 Hk Hm Hf Hl Hmon Hjan x' r.
+  pose proof (am_f20 y0 ny s v x s' k Hx Hann Hu Hy0 Hk m pp c fuel Hm Hf Hl Hmon Hjan) as E.
+  pose proof (am_f20_nothing_stored y0 ny s v x s' k Hx Hann Hu Hy0 Hk m pp c fuel Hm Hf Hl Hmon Hjan) as N.
+  cbv zeta in E, N. fold x' in E. unfold r. split; [now rewrite E|split; [|exact N]].
+  intro Ht. rewrite E. cbn [snd]. rewrite cast_not_bool by exact Ht. reflexivity.
+Qed.
